@@ -109,9 +109,17 @@ pub fn check_emitted_generic(acc: &mut Acc, g: &ModuleGraph, fx: &FcCtx) {
       let unresolved_o = unresolved_idents(&po);
       let bound_o: BTreeSet<String> =
         top_o.decls.keys().cloned().chain(top_o.import_locals.iter().cloned()).collect();
+      let bound_e: BTreeSet<String> =
+        top_e.decls.keys().cloned().chain(top_e.import_locals.iter().cloned()).collect();
       for (name, ctxs) in &unresolved_e {
         acc.count("unresolved_identifiers_examined");
-        if bound_o.contains(name) && !unresolved_o.contains(name) {
+        // A module-level name is in scope in the whole module, so a name the
+        // original binds at module level and the emitted module does not is
+        // dangling. (swc's resolver is not the oracle for "bound": it leaves
+        // references that precede an `export default interface` unresolved,
+        // in the original as well as in the output.)
+        let _ = &unresolved_o;
+        if bound_o.contains(name) && !bound_e.contains(name) {
           let kind = if top_o.import_locals.contains(name) {
             "import".to_string()
           } else {
@@ -314,6 +322,31 @@ pub fn check_emitted_generic(acc: &mut Acc, g: &ModuleGraph, fx: &FcCtx) {
           );
         }
       }
+      // signature slots written in the source are carried over unchanged
+      if let (Some(se), Some(so)) = (
+        signature_slots(&url(&em.specifier), &em.emitted, em.media),
+        signature_slots(&url(&em.specifier), &em.original, em.media),
+      ) {
+        for (key, ev) in &se.slots {
+          if key.contains("[computed]") || so.overload_impls.iter().any(|p| key.starts_with(p.as_str())) {
+            continue;
+          }
+          let Some(ov) = so.slots.get(key) else {
+            acc.count("signature_slots_inferred_or_synthesised");
+            continue;
+          };
+          acc.count("signature_slots_compared");
+          let ok = ev.same(ov) || (so.defaulted.contains(key) && ev.is_nullable_of(ov));
+          if !ok {
+            let kind = key.rsplit('/').next().unwrap_or("").split(' ').next().unwrap_or("").split('#').next().unwrap_or("").to_string();
+            acc.violation(
+              format!("signature-slot-changed/{}", kind),
+              format!("{}: {} differs between the source and the output", em.specifier, key),
+              w(json!({"slot": key, "emitted": format!("{:?}", ev).chars().take(600).collect::<String>(), "original": format!("{:?}", ov).chars().take(600).collect::<String>()})),
+            );
+          }
+        }
+      }
       // kinds are kept
       for (name, kinds) in &top_e.decls {
         if let Some(ok) = top_o.decls.get(name) {
@@ -408,16 +441,24 @@ fn signature_fragments(p: &Pkg, f: usize, d: usize) -> Vec<String> {
       }
     }
     DK::Class | DK::AbstractClass => {
-      for needle in ["  method(arg:", "  get prop():", "  set prop(value:", "  static create<U>(input: U):"] {
+      for needle in ["  method(arg:", "  get prop():", "  set prop(value:", "  static create<U>(input: U):", "  over(a:", "  abstract todo(a:"] {
         // member signatures inside this class
         if let Some(cs) = src.find(&format!("class {}", decl.name)).or_else(|| src.find("export default class")) {
-          if let Some(l) = src[cs..].lines().find(|l| l.starts_with(needle)) {
-            out.push(l.trim().trim_end_matches('{').trim().to_string());
+          let class_text = &src[cs..];
+          let class_text = &class_text[..class_text.find("\n}\n").unwrap_or(class_text.len())];
+          if let Some(l) = class_text.lines().find(|l| l.starts_with(needle)) {
+            out.push(l.trim().trim_end_matches('{').trim().trim_end_matches(';').to_string());
           }
         }
       }
     }
     _ => {}
+  }
+  if matches!(decl.kind, DK::Class | DK::AbstractClass) && decl.variant % 2 == 0 {
+    // public parameter properties become declared properties with the
+    // annotation the source wrote
+    out.push("declare level: number | string;".to_string());
+    out.push("declare readonly tag: \"a\" | \"b\";".to_string());
   }
   out
 }
@@ -472,26 +513,14 @@ pub fn check_generated(acc: &mut Acc, pkgs: &[Pkg], g: &ModuleGraph, fx: &FcCtx)
           // the diagnostic points into the spoiled declaration
           let src = render_file(p, dfile);
           let durl = file_url(p, dfile);
-          // span of the spoiled declaration: from its own start to the start
-          // of the next top-level declaration of the file
-          let start_of = |d: &Decl| -> Option<usize> {
-            let needles = [
-              format!("{} {}", d.kind.keyword(), d.name),
-              format!("{} {}<", d.kind.keyword(), d.name),
-              format!("export default {}", d.kind.keyword()),
-            ];
-            needles.iter().filter_map(|n| src.find(n.as_str())).min()
-          };
-          let decl_start = start_of(ddecl).unwrap_or(0);
-          let decl_end = p.files[dfile]
-            .decls
-            .iter()
-            .filter_map(|d| start_of(d))
-            .filter(|s| *s > decl_start)
-            .min()
-            .unwrap_or(src.len());
+          // span of the top-level item that declares the spoiled declaration
+          let _ = &src;
+          let (decl_start, decl_end) = parse_ts(&url(&durl), &src, deno_graph::MediaType::TypeScript, false)
+            .ok()
+            .and_then(|p| top_level_span(&p, &ddecl.name))
+            .unwrap_or((0, src.len()));
           let on_decl = diag_specs.iter().any(|(_, _, r)| {
-            r.as_ref().is_some_and(|(s, off)| *s == durl && *off + 20 >= decl_start && *off <= decl_end)
+            r.as_ref().is_some_and(|(s, off)| *s == durl && *off >= decl_start && *off <= decl_end)
           });
           if !on_decl {
             acc.violation(
@@ -816,7 +845,7 @@ pub fn fast_check_spec(sw: &SpecWorld, cache: Option<&dyn deno_graph::fast_check
 fn gen_case(i: usize, seed: u64, acc: &mut Acc, which: &str) {
   let mut rng = Rng::new(seed).fork(i as u64 ^ 0xFC);
   let dirty = which == "C10" && rng.chance(1, 4);
-  let n_files = rng.range(1, 4);
+  let n_files = rng.range(1, 5);
   let p = gen_pkg(&mut rng, "@s/pkg", n_files, dirty);
   let pkgs = vec![p];
   let world = build_pkgs_world(&pkgs);
@@ -847,7 +876,13 @@ fn gen_case(i: usize, seed: u64, acc: &mut Acc, which: &str) {
     for f in &p.files {
       for d in &f.decls {
         acc.count(&format!("decl:{:?}", d.kind));
+        if let Some(x) = d.dirty {
+          acc.count(&format!("dirty:{:?}", x));
+        }
       }
+    }
+    for (k, n) in feature_counts(p) {
+      acc.count_n(k, n);
     }
   }
   check_emitted_generic(acc, &g, &fx);
